@@ -34,7 +34,7 @@ static long fi_requests;          /* alloc + realloc requests so far in this cas
 static long fi_fired;             /* injected failures that fired */
 static long fi_fail[FI_MAXFAIL];  /* request numbers that fail */
 static int fi_nfail;
-static int fi_armed;              /* inside a library call */
+static volatile int fi_armed;     /* inside a library call (volatile: libc allocators are declared leaf, the store must not be dropped) */
 struct FiReg { void *p; size_t n; };
 static struct FiReg *fi_tab;
 static long fi_ntab;              /* = number of tracked live regions */
